@@ -3226,7 +3226,7 @@ fn oracle_c06(fields: &[&str]) -> String {
             }
             // isometric latitude and meridian arcs
             for p in parse_data(fields[2]) {
-                let x = p[0].min(1.5);
+                let x = p[0];
                 let psi = e.latitude_geographic_to_isometric(x);
                 let closed = x.tan().asinh() - ecc * (ecc * x.sin()).atanh();
                 if !((psi - closed).abs() < 1e-12 * closed.abs().max(1.0)) || !((e.latitude_isometric_to_geographic(psi) - x).abs() < 1e-12) {
